@@ -1171,7 +1171,8 @@ func vxC14Run(c *vxC14Case, k *vstats.Case) error {
 			k.Class("outcome=cancelled-by-its-caller")
 			continue
 		}
-		if res.err != "" && !explained && strings.Contains(res.err, context.Canceled.Error()) && !w.closeRounds[ref.round] && !ref.op.Cancel {
+		boundary := ref.round > 0 && w.closeRounds[ref.round-1] && c.anyGaveUp(ref.round-1) // see "connection-lost-as-the-round-began" below
+		if res.err != "" && !explained && strings.Contains(res.err, context.Canceled.Error()) && !w.closeRounds[ref.round] && !boundary && !ref.op.Cancel {
 			return fmt.Errorf("%s never cancelled its context and no connection was dropped in its round, yet it failed with %q (another caller's cancellation was reported to it)", what, res.err)
 		}
 		if res.err != "" && !explained && ref.round > 0 && w.closeRounds[ref.round-1] && c.anyGaveUp(ref.round-1) && vxC14ConnErr(res.err) {
